@@ -341,6 +341,8 @@ def validate_encoding(check_id, points, outdir: Path, jobs=8):
                 continue
             for (case, vp), r in zip(by_case[cname], res):
                 if r["error"]:
+                    if r["error"].startswith("abort: infeasible"):
+                        continue  # the model point violates an assumption under the real functions (UF abstraction): skipped
                     errs.append(f"{cname}: {r['error'][:500]}")
                     continue
                 bad, n = _cmp_observables(vp["observed"], r["observed"])
